@@ -909,16 +909,19 @@ impl Meta {
 
   #[inline]
   fn align_to<T>(&mut self) {
-    let align_offset = align_offset::<T>(self.memory_offset);
+    // align from the accessible offset: for memory taken from the free list it lies behind
+    // the segment node, which other threads may still be reading.
+    let align_offset = align_offset::<T>(self.ptr_offset);
     self.ptr_offset = align_offset;
     self.ptr_size = mem::size_of::<T>() as u32;
   }
 
   #[inline]
   fn align_bytes_to<T>(&mut self) {
-    let align_offset = align_offset::<T>(self.memory_offset);
+    let end = self.ptr_offset + self.ptr_size;
+    let align_offset = align_offset::<T>(self.ptr_offset);
     self.ptr_offset = align_offset;
-    self.ptr_size = self.memory_offset + self.memory_size - self.ptr_offset;
+    self.ptr_size = end - self.ptr_offset;
   }
 }
 
